@@ -370,38 +370,38 @@ fn max_body<const MX: usize, const R: usize, const L: usize, const BLOCK: usize,
 
 // --- C02 -------------------------------------------------------------------------------
 // name: matrix, rows, length, block size, dispatcher arm
-//@ C02 thorough 10800 scanner to exhaustion: matrix 0 (M=2), R=1, L=32 (full row), default block, AVX2 arm, <=2 hits | kani=--no-assertion-reach-checks | mem=16 | unwindset=scan::Scanner<.*Iterator>::next#0:6
+//@ C02 thorough 3109 scanner to exhaustion: matrix 0 (M=2), R=1, L=32 (full row), default block, AVX2 arm, <=2 hits | kani=--no-assertion-reach-checks | mem=16 | unwindset=scan::Scanner<.*Iterator>::next#0:6
 harness!(avx2vec, 34, c02_m0_r1_l32_b256_avx2, collect_body::<0, 1, 32, 256, 2>(Dispatch::Avx2));
 //@ C02 quick 800 scanner to exhaustion: matrix 0 (M=2), R=1, L=1 (shorter than the motif), AVX2 arm | kani=--no-assertion-reach-checks | mem=8 | unwindset=scan::Scanner<.*Iterator>::next#0:6
 harness!(avx2vec, 34, c02_m0_r1_l1_b256_avx2, collect_body::<0, 1, 1, 256, 2>(Dispatch::Avx2));
 //@ C02 quick 800 scanner to exhaustion: matrix 0 (M=2), empty sequence (L=0, no rows), generic arm | kani=--no-assertion-reach-checks | mem=8 | unwindset=scan::Scanner<.*Iterator>::next#0:6
 harness!(avx2vec, 34, c02_m0_r0_l0_b256_generic, collect_body::<0, 0, 0, 256, 2>(Dispatch::Generic));
-//@ C02 thorough 10800 scanner to exhaustion: matrix 0 (M=2), R=1, L=20, default block, generic arm (u8 kernel of the dispatcher fall-back) | kani=--no-assertion-reach-checks | mem=16 | unwindset=scan::Scanner<.*Iterator>::next#0:6
+//@ C02 thorough 2394 scanner to exhaustion: matrix 0 (M=2), R=1, L=20, default block, generic arm (u8 kernel of the dispatcher fall-back) | kani=--no-assertion-reach-checks | mem=16 | unwindset=scan::Scanner<.*Iterator>::next#0:6
 harness!(avx2vec, 34, c02_m0_r1_l20_b256_generic, collect_body::<0, 1, 20, 256, 2>(Dispatch::Generic));
-//@ C02 thorough 10800 scanner to exhaustion: matrix 1 (M=1), R=2, L=40, block 1, AVX2 arm | kani=--no-assertion-reach-checks | mem=16 | unwindset=scan::Scanner<.*Iterator>::next#0:6
+//@ C02 extended 10800 scanner to exhaustion: matrix 1 (M=1), R=2, L=40, block 1, AVX2 arm | kani=--no-assertion-reach-checks | mem=16 | unwindset=scan::Scanner<.*Iterator>::next#0:6
 harness!(avx2vec, 34, c02_m1_r2_l40_b1_avx2, collect_body::<1, 2, 40, 1, 2>(Dispatch::Avx2));
-//@ C02 thorough 14400 scanner to exhaustion: matrix 0 (M=2), R=2, L=63, block 2 (= R: the next block would start on the look-ahead row; the cell past the last position sits in row 0), AVX2 arm | kani=--no-assertion-reach-checks | mem=16 | unwindset=scan::Scanner<.*Iterator>::next#0:6
+//@ C02 extended 14400 scanner to exhaustion: matrix 0 (M=2), R=2, L=63, block 2 (= R: the next block would start on the look-ahead row; the cell past the last position sits in row 0), AVX2 arm | kani=--no-assertion-reach-checks | mem=16 | unwindset=scan::Scanner<.*Iterator>::next#0:6
 harness!(avx2vec, 66, c02_m0_r2_l63_b2_avx2, collect_body::<0, 2, 63, 2, 2>(Dispatch::Avx2));
-//@ C02 thorough 10800 scanner to exhaustion: matrix 0 (M=2), R=2, L=64, block 2, AVX2 arm | kani=--no-assertion-reach-checks | mem=16 | unwindset=scan::Scanner<.*Iterator>::next#0:6
+//@ C02 extended 10800 scanner to exhaustion: matrix 0 (M=2), R=2, L=64, block 2, AVX2 arm | kani=--no-assertion-reach-checks | mem=16 | unwindset=scan::Scanner<.*Iterator>::next#0:6
 harness!(avx2vec, 66, c02_m0_r2_l64_b2_avx2, collect_body::<0, 2, 64, 2, 2>(Dispatch::Avx2));
-//@ C02 thorough 10800 scanner to exhaustion: matrix 3 (finite wildcard column), R=1, L=20, AVX2 arm | kani=--no-assertion-reach-checks | mem=16 | unwindset=scan::Scanner<.*Iterator>::next#0:6
+//@ C02 extended 10800 scanner to exhaustion: matrix 3 (finite wildcard column), R=1, L=20, AVX2 arm | kani=--no-assertion-reach-checks | mem=16 | unwindset=scan::Scanner<.*Iterator>::next#0:6
 harness!(avx2vec, 34, c02_m3_r1_l20_b256_avx2, collect_body::<3, 1, 20, 256, 2>(Dispatch::Avx2));
-//@ C02 thorough 10800 scanner to exhaustion: matrix 2 (M=3, near-ties), R=1, L=12, SSE2 arm (generic u8 kernel) | kani=--no-assertion-reach-checks | mem=16 | unwindset=scan::Scanner<.*Iterator>::next#0:6
+//@ C02 extended 10800 scanner to exhaustion: matrix 2 (M=3, near-ties), R=1, L=12, SSE2 arm (generic u8 kernel) | kani=--no-assertion-reach-checks | mem=16 | unwindset=scan::Scanner<.*Iterator>::next#0:6
 harness!(avx2vec, 34, c02_m2_r1_l12_b256_sse2, collect_body::<2, 1, 12, 256, 2>(Dispatch::Sse2));
-//@ C02 thorough 10800 scanner to exhaustion: matrix 2 (M=3), R=2, L=50, block 1, AVX2 arm, <=3 hits | kani=--no-assertion-reach-checks | mem=16 | unwindset=scan::Scanner<.*Iterator>::next#0:6
+//@ C02 extended 10800 scanner to exhaustion: matrix 2 (M=3), R=2, L=50, block 1, AVX2 arm, <=3 hits | kani=--no-assertion-reach-checks | mem=16 | unwindset=scan::Scanner<.*Iterator>::next#0:6
 harness!(avx2vec, 34, c02_m2_r2_l50_b1_avx2, collect_body::<2, 2, 50, 1, 3>(Dispatch::Avx2));
-//@ C02 thorough 10800 scanner to exhaustion: matrix 5 (M=3, sum of bytes > 255), R=3, L=70, block 2, AVX2 arm | kani=--no-assertion-reach-checks | mem=16 | unwindset=scan::Scanner<.*Iterator>::next#0:6
+//@ C02 extended 10800 scanner to exhaustion: matrix 5 (M=3, sum of bytes > 255), R=3, L=70, block 2, AVX2 arm | kani=--no-assertion-reach-checks | mem=16 | unwindset=scan::Scanner<.*Iterator>::next#0:6
 harness!(avx2vec, 66, c02_m5_r3_l70_b2_avx2, collect_body::<5, 3, 70, 2, 2>(Dispatch::Avx2));
-//@ C02 thorough 10800 scanner to exhaustion: matrix 4 (constant rows, scale factor 0), R=1, L=16, AVX2 arm | kani=--no-assertion-reach-checks | mem=16 | unwindset=scan::Scanner<.*Iterator>::next#0:6
+//@ C02 extended 10800 scanner to exhaustion: matrix 4 (constant rows, scale factor 0), R=1, L=16, AVX2 arm | kani=--no-assertion-reach-checks | mem=16 | unwindset=scan::Scanner<.*Iterator>::next#0:6
 harness!(avx2vec, 34, c02_m4_r1_l16_b256_avx2, collect_body::<4, 1, 16, 256, 2>(Dispatch::Avx2));
-//@ C02 thorough 10800 scanner to exhaustion: matrix 5, R=2, L=33, block 3 (R+1), generic arm | kani=--no-assertion-reach-checks | mem=16 | unwindset=scan::Scanner<.*Iterator>::next#0:6
+//@ C02 extended 10800 scanner to exhaustion: matrix 5, R=2, L=33, block 3 (R+1), generic arm | kani=--no-assertion-reach-checks | mem=16 | unwindset=scan::Scanner<.*Iterator>::next#0:6
 harness!(avx2vec, 66, c02_m5_r2_l33_b3_generic, collect_body::<5, 2, 33, 3, 2>(Dispatch::Generic));
-//@ C02 thorough 10800 scanner to exhaustion: matrix 0 (M=2), R=1, L=2 (= M), AVX2 arm | kani=--no-assertion-reach-checks | mem=8 | unwindset=scan::Scanner<.*Iterator>::next#0:6
-harness!(avx2vec, 34, c02_m0_r1_l2_b256_avx2, collect_body::<0, 1, 2, 256, 2>(Dispatch::Avx2));
+//@ C02 thorough 1800 scanner to exhaustion: matrix 0 (M=2), R=1, L=2 (= M), AVX2 arm | kani=--no-assertion-reach-checks | mem=8 | unwindset=scan::Scanner<.*Iterator>::next#0:6
+harness!(avx2vec, 34, c02_m0_r1_l2_b256_avx2, collect_body::<0, 1, 2, 256, 1>(Dispatch::Avx2));
 
-//@ C02 thorough 10800 scanner to exhaustion, blocks of 2 rows: matrix 0 (M=2), R=2, L=63, block 2, AVX2 arm, threshold -1, background T, symbolic symbols at 1, 3, 61, 62 (the cell past the last position sits in row 0, hits in row 1) | kani=--no-assertion-reach-checks | mem=12 | unwindset=scan::Scanner<.*Iterator>::next#0:6
+//@ C02 thorough 2138 scanner to exhaustion, blocks of 2 rows: matrix 0 (M=2), R=2, L=63, block 2, AVX2 arm, threshold -1, background T, symbolic symbols at 1, 3, 61, 62 (the cell past the last position sits in row 0, hits in row 1) | kani=--no-assertion-reach-checks | mem=12 | unwindset=scan::Scanner<.*Iterator>::next#0:6
 harness!(avx2vec, 66, c02_sparse_m0_r2_l63_b2_avx2, collect_sparse_body::<0, 2, 63, 2, 2>(Dispatch::Avx2, -1.0, 2, &[1, 3, 61, 62]));
-//@ C02 thorough 10800 scanner to exhaustion, blocks of 3 rows: matrix 2 (M=3), R=3, L=94, block 3, generic arm, threshold 1.5, background A, symbolic symbols at 4, 5, 91, 92, 93 | kani=--no-assertion-reach-checks | mem=12 | unwindset=scan::Scanner<.*Iterator>::next#0:6
+//@ C02 extended 10800 scanner to exhaustion, blocks of 3 rows: matrix 2 (M=3), R=3, L=94, block 3, generic arm, threshold 1.5, background A, symbolic symbols at 4, 5, 91, 92, 93 | kani=--no-assertion-reach-checks | mem=12 | unwindset=scan::Scanner<.*Iterator>::next#0:6
 harness!(avx2vec, 98, c02_sparse_m2_r3_l94_b3_generic, collect_sparse_body::<2, 3, 94, 3, 2>(Dispatch::Generic, 1.5, 0, &[4, 5, 91, 92, 93]));
 
 //@ C02 quick 800 scanner to exhaustion: matrix 0 (M=2), R=1, L=4 all symbolic, threshold 1.0, AVX2 arm | kani=--no-assertion-reach-checks | mem=10 | unwindset=scan::Scanner<.*Iterator>::next#0:6
@@ -418,43 +418,43 @@ harness!(avx2vec, 34, c02_tiny_m0_r1_l32_avx2, collect_sparse_body::<0, 1, 32, 2
 // constant-fold in CBMC: even these take > 800 s (11 M SAT variables), so they are thorough-tier
 // too. The quick tier of C02 / C03 is therefore limited to the instances where scoring returns
 // early (L < M, empty sequence), which is where the panics of the unrepaired scanner were.
-//@ C02 thorough 7200 scanner control (concrete content TTT...): matrix 0 (M=2), R=2, L=64, block 2 (next block would start on the look-ahead row), threshold above every score, AVX2 arm | kani=--no-assertion-reach-checks | mem=16 | unwindset=scan::Scanner<.*Iterator>::next#0:6
+//@ C02 thorough 1822 scanner control (concrete content TTT...): matrix 0 (M=2), R=2, L=64, block 2 (next block would start on the look-ahead row), threshold above every score, AVX2 arm | kani=--no-assertion-reach-checks | mem=16 | unwindset=scan::Scanner<.*Iterator>::next#0:6
 harness!(avx2vec, 66, c02_ctl_m0_r2_l64_b2_avx2, collect_sparse_body::<0, 2, 64, 2, 2>(Dispatch::Avx2, 30.0, 2, &[]));
-//@ C02 thorough 7200 scanner control (concrete content): matrix 2 (M=3), R=3, L=90, block 2 (last block = one row + look-ahead rows), threshold above every score, generic arm | kani=--no-assertion-reach-checks | mem=16 | unwindset=scan::Scanner<.*Iterator>::next#0:6
+//@ C02 extended 7200 scanner control (concrete content): matrix 2 (M=3), R=3, L=90, block 2 (last block = one row + look-ahead rows), threshold above every score, generic arm | kani=--no-assertion-reach-checks | mem=16 | unwindset=scan::Scanner<.*Iterator>::next#0:6
 harness!(avx2vec, 66, c02_ctl_m2_r3_l90_b2_generic, collect_sparse_body::<2, 3, 90, 2, 2>(Dispatch::Generic, 30.0, 0, &[]));
-//@ C02 thorough 7200 scanner control (concrete content): matrix 0 (M=2), R=2, L=33, block 1, one symbolic symbol at the end, threshold above every score, AVX2 arm | kani=--no-assertion-reach-checks | mem=16 | unwindset=scan::Scanner<.*Iterator>::next#0:6
+//@ C02 extended 7200 scanner control (concrete content): matrix 0 (M=2), R=2, L=33, block 1, one symbolic symbol at the end, threshold above every score, AVX2 arm | kani=--no-assertion-reach-checks | mem=16 | unwindset=scan::Scanner<.*Iterator>::next#0:6
 harness!(avx2vec, 34, c02_ctl_m0_r2_l33_b1_avx2, collect_sparse_body::<0, 2, 33, 1, 2>(Dispatch::Avx2, 30.0, 1, &[32]));
 
 // --- C03 -------------------------------------------------------------------------------
-//@ C03 thorough 10800 scanner max(): matrix 0 (M=2), R=1, L=32, default block, AVX2 arm, no prior next() | kani=--no-assertion-reach-checks | mem=16 | unwindset=scan::Scanner<.*Iterator>::next#0:6;scan::Scanner<.*Iterator>::max#0:6
+//@ C03 extended 10800 scanner max(): matrix 0 (M=2), R=1, L=32, default block, AVX2 arm, no prior next() | kani=--no-assertion-reach-checks | mem=16 | unwindset=scan::Scanner<.*Iterator>::next#0:6;scan::Scanner<.*Iterator>::max#0:6
 harness!(avx2vec, 34, c03_m0_r1_l32_b256_avx2_pre0, max_body::<0, 1, 32, 256, 0>(Dispatch::Avx2));
-//@ C03 thorough 10800 scanner max(): matrix 2 (M=3, near-ties under byte rounding), R=1, L=16, AVX2 arm, no prior next() | kani=--no-assertion-reach-checks | mem=16 | unwindset=scan::Scanner<.*Iterator>::next#0:6;scan::Scanner<.*Iterator>::max#0:6
+//@ C03 extended 10800 scanner max(): matrix 2 (M=3, near-ties under byte rounding), R=1, L=16, AVX2 arm, no prior next() | kani=--no-assertion-reach-checks | mem=16 | unwindset=scan::Scanner<.*Iterator>::next#0:6;scan::Scanner<.*Iterator>::max#0:6
 harness!(avx2vec, 34, c03_m2_r1_l16_b256_avx2_pre0, max_body::<2, 1, 16, 256, 0>(Dispatch::Avx2));
-//@ C03 thorough 10800 scanner max(): matrix 2 (M=3), R=2, L=40, block 1, AVX2 arm, no prior next() | kani=--no-assertion-reach-checks | mem=16 | unwindset=scan::Scanner<.*Iterator>::next#0:6;scan::Scanner<.*Iterator>::max#0:6
+//@ C03 extended 10800 scanner max(): matrix 2 (M=3), R=2, L=40, block 1, AVX2 arm, no prior next() | kani=--no-assertion-reach-checks | mem=16 | unwindset=scan::Scanner<.*Iterator>::next#0:6;scan::Scanner<.*Iterator>::max#0:6
 harness!(avx2vec, 34, c03_m2_r2_l40_b1_avx2_pre0, max_body::<2, 2, 40, 1, 0>(Dispatch::Avx2));
-//@ C03 thorough 10800 scanner max(): matrix 0 (M=2), R=2, L=64, block 1, AVX2 arm, one prior next() | kani=--no-assertion-reach-checks | mem=16 | unwindset=scan::Scanner<.*Iterator>::next#0:6;scan::Scanner<.*Iterator>::max#0:6
+//@ C03 extended 10800 scanner max(): matrix 0 (M=2), R=2, L=64, block 1, AVX2 arm, one prior next() | kani=--no-assertion-reach-checks | mem=16 | unwindset=scan::Scanner<.*Iterator>::next#0:6;scan::Scanner<.*Iterator>::max#0:6
 harness!(avx2vec, 34, c03_m0_r2_l64_b1_avx2_pre1, max_body::<0, 2, 64, 1, 1>(Dispatch::Avx2));
 //@ C03 quick 800 scanner max(): matrix 0 (M=2), R=1, L=1 (shorter than the motif), generic arm | kani=--no-assertion-reach-checks | mem=8 | unwindset=scan::Scanner<.*Iterator>::next#0:6;scan::Scanner<.*Iterator>::max#0:6
 harness!(avx2vec, 34, c03_m0_r1_l1_b256_generic_pre0, max_body::<0, 1, 1, 256, 0>(Dispatch::Generic));
-//@ C03 thorough 10800 scanner max(): matrix 0 (M=2), R=1, L=20, generic arm, one prior next() | kani=--no-assertion-reach-checks | mem=16 | unwindset=scan::Scanner<.*Iterator>::next#0:6;scan::Scanner<.*Iterator>::max#0:6
+//@ C03 extended 10800 scanner max(): matrix 0 (M=2), R=1, L=20, generic arm, one prior next() | kani=--no-assertion-reach-checks | mem=16 | unwindset=scan::Scanner<.*Iterator>::next#0:6;scan::Scanner<.*Iterator>::max#0:6
 harness!(avx2vec, 34, c03_m0_r1_l20_b256_generic_pre1, max_body::<0, 1, 20, 256, 1>(Dispatch::Generic));
-//@ C03 thorough 10800 scanner max(): matrix 5 (M=3), R=2, L=64, block 2, AVX2 arm, two prior next() | kani=--no-assertion-reach-checks | mem=16 | unwindset=scan::Scanner<.*Iterator>::next#0:6;scan::Scanner<.*Iterator>::max#0:6
+//@ C03 extended 10800 scanner max(): matrix 5 (M=3), R=2, L=64, block 2, AVX2 arm, two prior next() | kani=--no-assertion-reach-checks | mem=16 | unwindset=scan::Scanner<.*Iterator>::next#0:6;scan::Scanner<.*Iterator>::max#0:6
 harness!(avx2vec, 66, c03_m5_r2_l64_b2_avx2_pre2, max_body::<5, 2, 64, 2, 2>(Dispatch::Avx2));
-//@ C03 thorough 10800 scanner max(): matrix 3 (finite wildcard), R=1, L=20, AVX2 arm | kani=--no-assertion-reach-checks | mem=16 | unwindset=scan::Scanner<.*Iterator>::next#0:6;scan::Scanner<.*Iterator>::max#0:6
+//@ C03 extended 10800 scanner max(): matrix 3 (finite wildcard), R=1, L=20, AVX2 arm | kani=--no-assertion-reach-checks | mem=16 | unwindset=scan::Scanner<.*Iterator>::next#0:6;scan::Scanner<.*Iterator>::max#0:6
 harness!(avx2vec, 34, c03_m3_r1_l20_b256_avx2_pre0, max_body::<3, 1, 20, 256, 0>(Dispatch::Avx2));
-//@ C03 thorough 10800 scanner max(): matrix 2 (M=3), R=3, L=80, block 2, AVX2 arm | kani=--no-assertion-reach-checks | mem=16 | unwindset=scan::Scanner<.*Iterator>::next#0:6;scan::Scanner<.*Iterator>::max#0:6
+//@ C03 extended 10800 scanner max(): matrix 2 (M=3), R=3, L=80, block 2, AVX2 arm | kani=--no-assertion-reach-checks | mem=16 | unwindset=scan::Scanner<.*Iterator>::next#0:6;scan::Scanner<.*Iterator>::max#0:6
 harness!(avx2vec, 66, c03_m2_r3_l80_b2_avx2_pre0, max_body::<2, 3, 80, 2, 0>(Dispatch::Avx2));
-//@ C03 thorough 10800 scanner max(): matrix 1 (M=1), R=2, L=33, block 3, SSE2 arm, one prior next() | kani=--no-assertion-reach-checks | mem=16 | unwindset=scan::Scanner<.*Iterator>::next#0:6;scan::Scanner<.*Iterator>::max#0:6
+//@ C03 extended 10800 scanner max(): matrix 1 (M=1), R=2, L=33, block 3, SSE2 arm, one prior next() | kani=--no-assertion-reach-checks | mem=16 | unwindset=scan::Scanner<.*Iterator>::next#0:6;scan::Scanner<.*Iterator>::max#0:6
 harness!(avx2vec, 66, c03_m1_r2_l33_b3_sse2_pre1, max_body::<1, 2, 33, 3, 1>(Dispatch::Sse2));
-//@ C03 thorough 10800 scanner max(): matrix 4 (constant rows), R=1, L=10, AVX2 arm | kani=--no-assertion-reach-checks | mem=16 | unwindset=scan::Scanner<.*Iterator>::next#0:6;scan::Scanner<.*Iterator>::max#0:6
+//@ C03 extended 10800 scanner max(): matrix 4 (constant rows), R=1, L=10, AVX2 arm | kani=--no-assertion-reach-checks | mem=16 | unwindset=scan::Scanner<.*Iterator>::next#0:6;scan::Scanner<.*Iterator>::max#0:6
 harness!(avx2vec, 34, c03_m4_r1_l10_b256_avx2_pre0, max_body::<4, 1, 10, 256, 0>(Dispatch::Avx2));
 //@ C03 quick 800 scanner max(): matrix 0 (M=2), R=1, L=4 all symbolic, threshold 1.0, AVX2 arm, no prior next() | kani=--no-assertion-reach-checks | mem=10 | unwindset=scan::Scanner<.*Iterator>::next#0:6;scan::Scanner<.*Iterator>::max#0:6
 harness!(avx2vec, 34, c03_tiny_m0_r1_l4_avx2_pre0, max_sparse_body::<0, 1, 4, 256, 0>(Dispatch::Avx2, 1.0, 0, &[0, 1, 2, 3]));
 //@ C03 quick 800 scanner max(): matrix 2 (M=3, near-ties under byte rounding), R=1, L=6 all symbolic, threshold 1.25, AVX2 arm, no prior next() | kani=--no-assertion-reach-checks | mem=10 | unwindset=scan::Scanner<.*Iterator>::next#0:6;scan::Scanner<.*Iterator>::max#0:6
 harness!(avx2vec, 34, c03_tiny_m2_r1_l6_avx2_pre0, max_sparse_body::<2, 1, 6, 256, 0>(Dispatch::Avx2, 1.25, 0, &[0, 1, 2, 3, 4, 5]));
-//@ C03 thorough 7200 scanner max(): matrix 0 (M=2), R=1, L=5 all symbolic, threshold 2.0 (a score value: equality matters), generic arm, one prior next() | kani=--no-assertion-reach-checks | mem=10 | unwindset=scan::Scanner<.*Iterator>::next#0:6;scan::Scanner<.*Iterator>::max#0:6
+//@ C03 thorough 2598 scanner max(): matrix 0 (M=2), R=1, L=5 all symbolic, threshold 2.0 (a score value: equality matters), generic arm, one prior next() | kani=--no-assertion-reach-checks | mem=10 | unwindset=scan::Scanner<.*Iterator>::next#0:6;scan::Scanner<.*Iterator>::max#0:6
 harness!(avx2vec, 34, c03_tiny_m0_r1_l5_generic_pre1, max_sparse_body::<0, 1, 5, 256, 1>(Dispatch::Generic, 2.0, 0, &[0, 1, 2, 3, 4]));
-//@ C03 thorough 7200 scanner max() control (concrete content): matrix 0 (M=2), R=2, L=64, block 2, threshold above every score, AVX2 arm, one prior next() | kani=--no-assertion-reach-checks | mem=16 | unwindset=scan::Scanner<.*Iterator>::next#0:6;scan::Scanner<.*Iterator>::max#0:6
+//@ C03 extended 7200 scanner max() control (concrete content): matrix 0 (M=2), R=2, L=64, block 2, threshold above every score, AVX2 arm, one prior next() | kani=--no-assertion-reach-checks | mem=16 | unwindset=scan::Scanner<.*Iterator>::next#0:6;scan::Scanner<.*Iterator>::max#0:6
 harness!(avx2vec, 66, c03_ctl_m0_r2_l64_b2_avx2_pre1, max_sparse_body::<0, 2, 64, 2, 1>(Dispatch::Avx2, 30.0, 2, &[]));
-//@ C03 thorough 7200 scanner max() control (concrete content): matrix 2 (M=3), R=3, L=90, block 2, threshold above every score, generic arm | kani=--no-assertion-reach-checks | mem=16 | unwindset=scan::Scanner<.*Iterator>::next#0:6;scan::Scanner<.*Iterator>::max#0:6
+//@ C03 extended 7200 scanner max() control (concrete content): matrix 2 (M=3), R=3, L=90, block 2, threshold above every score, generic arm | kani=--no-assertion-reach-checks | mem=16 | unwindset=scan::Scanner<.*Iterator>::next#0:6;scan::Scanner<.*Iterator>::max#0:6
 harness!(avx2vec, 66, c03_ctl_m2_r3_l90_b2_generic_pre0, max_sparse_body::<2, 3, 90, 2, 0>(Dispatch::Generic, 30.0, 0, &[]));
